@@ -21,13 +21,13 @@ class Contract:
         self.selfclass = kw.pop("selfclass", None)  # str | list[str] | None
         self.params = kw.pop("params", {})
         self.fields = kw.pop("fields", {})
-        self.globals = kw.pop("globals", {})
+        self.globals = dict(kw.pop("globals", {}))
         self.requires = _lst(kw.pop("requires", []))
         self.ensures = _lst(kw.pop("ensures", []))
         self.ensures_assumed = _lst(kw.pop("ensures_assumed", []))
         self.ensures_internal = _lst(kw.pop("ensures_internal", []))  # verified, but not handed to callers (talk about concrete classes)  # visible to callers only; not verified (ghost definitions)
-        self.raises = kw.pop("raises", {})  # exc -> condition string (pre-state) or True
-        self.on_raise = kw.pop("on_raise", {})  # exc -> [clauses]
+        self.raises = dict(kw.pop("raises", {}))  # exc -> condition string (pre-state) or True
+        self.on_raise = {k: list(v) for k, v in kw.pop("on_raise", {}).items()}  # exc -> [clauses]
         self.modifies = kw.pop("modifies", None)  # None = unchecked; list of "self.x" / "g:mod.name" / "entry.mimetype"
         self.loops = kw.pop("loops", {})
         self.returns = kw.pop("returns", None)
@@ -45,7 +45,8 @@ class Contract:
         self.opts = kw.pop("opts", {})
         self.init = kw.pop("init", {})
         self.use_lemmas = kw.pop("use_lemmas", [])
-        self.result_elem = kw.pop("result_elem", None)  # predicate over `elem` holding for every element of a list result  # [(lemma name, {lemma var: expression in this function's entry state})]  # field -> defining expression (class invariant given as an equation)
+        self.result_elem = kw.pop("result_elem", None)
+        self.at = kw.pop("at", {})  # "after:<first line of statement>" -> [("assert", clause) | ("ghost", name, expr)]  # predicate over `elem` holding for every element of a list result  # [(lemma name, {lemma var: expression in this function's entry state})]  # field -> defining expression (class invariant given as an equation)
         if kw:
             raise TypeError("unknown contract keys %r" % list(kw))
 
@@ -92,6 +93,7 @@ class World:
         self._expr_cache = {}
         self._imports = {}
         self.astchecks = []  # (name, props, fn(world)->(ok, detail))
+        self.finalizers = []
         self.load_spec()
 
     # ---- registration API (used by /verif/contracts/*.py) ---------------------------
@@ -713,8 +715,10 @@ class World:
                     # definitional result:  result == <expr>
                     res = eng.eval_merged(lambda: eng.force(eng.eval(t0.comparators[0], fr)))
                     ens = ens[1:]
+            res_fresh = False
             if res is None:
                 res = self.fresh_result(eng, c, fi)
+                res_fresh = True
                 ens = list(c.ensures)
             if c.result_elem and isinstance(res, VList) and not res.concrete():
                 self.wrap_elem_pred(eng, res, c.result_elem, fi)
@@ -738,7 +742,7 @@ class World:
                         and isinstance(tree.left, ast.Attribute) and isinstance(tree.left.value, ast.Name)):
                     base, attr = tree.left.value.id, tree.left.attr
                     mods = c.modifies or []
-                    if ("%s.%s" % (base, attr)) in mods or (base + ".*") in mods:
+                    if ("%s.%s" % (base, attr)) in mods or (base + ".*") in mods or (base == "result" and isinstance(res, VObj) and res_fresh):
                         val = eng.eval_merged(lambda t=tree: eng.eval(t.comparators[0], fr))
                         if base == "ghost":
                             eng.ghost[attr] = val
@@ -783,9 +787,13 @@ class World:
                     eng.ghost[g] = eng.fresh_like(eng.ghost[g], "hv_ghost_" + g)
             elif m.endswith(".*"):
                 obj = eng.force(fr.locals.get(m[:-2]))
-                if isinstance(obj, VObj) and not getattr(obj, "fresh_alloc", False):
+                if isinstance(obj, VObj) and not (getattr(obj, "fresh_alloc", False) and fi.name == "__init__"):
                     for f in list(obj.fields):
-                        obj.fields[f] = eng.fresh_like(obj.fields[f], "hv_%s_%s" % (obj.name, f))
+                        ty = obj.fieldty.get(f)
+                        if ty and not ty.startswith(("maybe:", "ghost:", "obj:", "opaque:")):
+                            obj.fields[f] = eng.fresh(ty, "hv_%s_%s" % (obj.name, f))
+                        elif isinstance(obj.fields[f], (VStr, VInt, VBool, VReal, VOpt, VList, VTuple)):
+                            obj.fields[f] = eng.fresh_like(obj.fields[f], "hv_%s_%s" % (obj.name, f))
             elif "." in m:
                 base, f = m.rsplit(".", 1)
                 obj = eng.force(eng.eval_str(base, fr))
